@@ -606,7 +606,7 @@ def run(ctx):
              'the same instants written with Z and with explicit offsets, and times in named zones: all ordered pairs x 13 operators (the 9 plus in (< b), (<= b), (> b), (>= b)) and all triples inside a change for between / in / '
              'conjunction of unary tests, laws on the implementation\'s answers, truth values against instants computed with zoneinfo. non-trivial = same-kind pair / triple, an operand that is null or boolean, or a non-null comparison'
              % (n, ', '.join('%d %s' % (c, k) for k, c in sorted(kinds.items())), 'a sample of 6000 mixed-kind triples' if ctx.quick else 'all other triples of the alphabet'),
-        extra_cov={'exhaustive': 'pairs of the alphabet: yes; triples: %s' % ('ordered kinds only + sample' if ctx.quick else 'yes'), 'alphabet_size': n, 'alphabet_kinds': kinds,
+        extra_cov={'exhaustive': not ctx.quick, 'exhaustive_note': 'pairs of the alphabet: yes; triples: %s' % ('ordered kinds only + sample' if ctx.quick else 'yes'), 'alphabet_size': n, 'alphabet_kinds': kinds,
                    'alphabet_triples': len(tset), 'random_groups': len(groups), 'model_variant': 'orig' if ORIG else 'current', **zcov},
         assumptions=['the Coq model covers times and date-times with explicit offsets or Z; named zones are checked by laws and a zoneinfo oracle (years 1990..2021, no ambiguous or skipped local times); local times depend on the host and are not used',
                      'context keys are plain single-part names'],
